@@ -233,7 +233,10 @@ def run(repo: Repo, L: Ledger, tier: str):
         helper_calls = [c for c in repo.calls_in(find) if repo.resolve_call(c, find)[0] and dotted(c.func) not in ("OverlapResult",)]
         missing = [v for v in (lo, hi) if v and not walks.get(v)] if len(slices) == 1 and isinstance(slices[0].slice.lower, ast.Name) else []
         mention = lambda c, v: any(isinstance(x, ast.Name) and x.id == v for x in ast.walk(c))  # noqa: E731
-        unclear = "not found" in why4 or not missing or any(mention(c, v) for v in missing for c in [*gap_tests, *helper_calls])
+        # Gap tests that are not the test of a recognised inward walk: stripping done some other way (next(<generator>), helper ...)
+        walk_tests = {id(c) for w in walk_shallow(find.node) if isinstance(w, ast.While) for c in ast.walk(w.test)}
+        other_gap_tests = [c for c in gap_tests if id(c) not in walk_tests]
+        unclear = "not found" in why4 or not missing or bool(other_gap_tests) or any(mention(c, v) for v in missing for c in [*gap_tests, *helper_calls])
         if unclear:
             raise AnalysisError(f"{find.short}: terminal-gap stripping is not written as two inward while-walks over the slice indices ({why4}): form not understood")
     L.check(bool(ok4), "R4", find.short, "leading and trailing gap rows are walked off before slicing", why4, find.loc())
